@@ -867,7 +867,13 @@ class APath(_pathlib.PurePosixPath, Abstract):
     """a path as pure syntax (no file system): pathlib.Path(...) in evaluated code; resolve() / absolute() are the identity on
     the absolute, normalised paths the rules use"""
 
+    ALIASES: Dict[str, str] = {}  # other spellings of directories (symbolic links, relative forms): alias prefix -> real prefix
+
     def resolve(self, strict: bool = False) -> "APath":
+        me = str(self)
+        for alias, real in APath.ALIASES.items():
+            if me == alias or me.startswith(alias.rstrip("/") + "/"):
+                return APath(real + me[len(alias):])
         return self
 
     def absolute(self) -> "APath":
@@ -877,7 +883,8 @@ class APath(_pathlib.PurePosixPath, Abstract):
         return self
 
     def samefile(self, other: Any) -> bool:
-        return _pathlib.PurePosixPath(str(self)) == _pathlib.PurePosixPath(str(other))
+        o = other.resolve() if isinstance(other, APath) else APath(str(other)).resolve()
+        return _pathlib.PurePosixPath(str(self.resolve())) == _pathlib.PurePosixPath(str(o))
 
     FS: List[str] = []  # the files of the abstract file system (absolute, normalised), set by the rule that needs listings
 
@@ -891,7 +898,7 @@ class APath(_pathlib.PurePosixPath, Abstract):
         """every file at any depth under this directory whose name matches the pattern - in an order the caller may not rely on"""
         import fnmatch
 
-        me = str(self).rstrip("/") + "/"
+        me = str(self).rstrip("/") + "/"  # (listed by the spelling given: an alias that was not resolved finds nothing)
         hits = [f_ for f_ in APath.FS if f_.startswith(me) and fnmatch.fnmatchcase(f_.rsplit("/", 1)[-1], pattern)]
         # deliberately not sorted by name: reversed, so that code relying on the listing order is exposed
         return [APath(h) for h in reversed(hits)]
@@ -991,6 +998,23 @@ class _Chain(dict):
 
 def aobj_eq(f: Folder, left: Any, right: Any) -> Any:
     """left == right where one side is an abstract instance of a repository class that defines __eq__"""
+    for a, b in ((left, right), (right, left)):
+        if type(a).__name__ == "AObj" and a._record() is not None:
+            # a record (class-syntax NamedTuple): equality of the field tuples, element by element as the program would compare
+            other = list(b) if (type(b).__name__ == "AObj" and b._record() is not None) or isinstance(b, tuple) else None
+            if other is None or len(other) != len(a._record()):
+                return False
+            mine = list(a)
+            for x, y in zip(mine, other):
+                if type(x).__name__ == "AObj" or type(y).__name__ == "AObj":
+                    r = aobj_eq(f, x, y)
+                    if r is NotImplemented:
+                        r = x is y
+                    if not r:
+                        return False
+                elif not (x == y):
+                    return False
+            return True
     for a, b in ((left, right), (right, left)):
         if type(a).__name__ == "AObj":
             m = a._ctx_.repo.lookup_method(a._cls_, "__eq__")
